@@ -170,8 +170,23 @@ impl<'a> fv_template::LiteralVisitor for TemplateVisitor<'a> {
             return;
         };
 
+        // `fv_template` hands over the text as it's written in the source of the literal;
+        // interpret its escape sequences (`\n`, `\"`, `\\`, ..) the way the compiler would
+        let text = unescape_text(text);
+        let text = &*text;
+
         self.literal.push_str(text);
 
         parts.push(quote!(emit::template::Part::text(#text)));
     }
+}
+
+fn unescape_text(text: &str) -> String {
+    if !text.contains('\\') {
+        return text.to_owned();
+    }
+
+    syn::parse_str::<syn::LitStr>(&format!("\"{}\"", text))
+        .map(|lit| lit.value())
+        .unwrap_or_else(|_| text.to_owned())
 }
